@@ -153,13 +153,27 @@ class World(object):
                            np.sum(np.abs(self.tsvalues)) + np.sum(np.abs(self.kra)) + 1.0)
         self.exact = w["values"] in ("dyadic", "coarse", "integer", "wide")
 
-    def sampler(self, vacsite=None, decoy=False, private=False):
+    def sampler(self, vacsite=None, decoy=False, private=False, own=None):
         """A brand-new sampler through the public constructors. decoy=True: a different sampler (other
         interaction values, other spectator occupation, vacancy elsewhere) that a caller builds on the same
         supercell object in between; it must leave no trace in samplers built afterwards."""
         sup = self.shared if (self.shared is not None and not private) else \
             supercell.ClusterSupercell(self.crys, self.S, spectator=self.spect)
         socc, ev, tsv, kra = self.socc, self.evalues, self.tsvalues, self.kra
+        if own is not None:
+            # the system under test gets argument objects of its own (not shared with the reference samplers).
+            # (Editing them after construction was tried as a fault and withdrawn: DESIGN 9.)
+            socc, ev, tsv = socc.copy(), ev.copy(), tsv.copy()
+            kra = kra.copy() if isinstance(kra, np.ndarray) else kra
+            jn = [[((i, j), dx.copy()) for (i, j), dx in jl] for jl in self.jn]
+            ce, ts = [set(c) if isinstance(c, (set, frozenset)) else list(c) for c in self.ce], \
+                [set(c) if isinstance(c, (set, frozenset)) else list(c) for c in self.ts]
+            own.update(socc=socc, ev=ev, tsv=tsv, kra=kra, jn=jn, ce=ce, ts=ts)
+            if self.vac:
+                sup.addvacancy(self.vacsite if vacsite is None else vacsite)
+            if self.w["jumps"]:
+                return cluster.MonteCarloSampler(sup, socc, ce, ev, self.chem, jn, KRAvalues=kra, TSclusters=ts, TSvalues=tsv)
+            return cluster.MonteCarloSampler(sup, socc, ce, ev)
         if self.vac:
             v = self.vacsite if vacsite is None else vacsite
             if decoy and self.w.get("shared_sup") != "jumpnet":
@@ -236,12 +250,13 @@ class Run(RunBase):
         self.w = world
         self.W = World(world)
         self.n = self.W.nsites
+        self.own = {}                         # the argument objects the caller handed to the constructor of self.mc
         self.companion = None                 # shared-supercell worlds: the decoy sampler, kept alive and driven too
         if self.W.shared is not None:
             # the system under test is constructed on a supercell object on which a different sampler was
             # constructed before; the fresh references come from a supercell object of their own
             self.companion = self.W.sampler(decoy=True)
-            self.mc = self.W.sampler()
+            self.mc = self.W.sampler(own=self.own)
             self.tmpl = self.W.sampler(private=True)
             self.faults["sampler-built-on-shared-supercell"] += 1
             if self.W.vac and world.get("vseed", 0) % 2:
@@ -253,7 +268,7 @@ class Run(RunBase):
                 self.faults["supercell-vacancy-moved-after-construction"] += 1
         else:
             self.tmpl = self.W.sampler()          # never started; shallow copies serve as fresh references
-            self.mc = copy.deepcopy(self.tmpl)    # system under test
+            self.mc = self.W.sampler(own=self.own)    # system under test: its own constructor call
         self.vacsite = self.W.vacsite
         self.occ = None                       # the caller's array (aliased by the sampler)
         self.mocc = None                      # model occupation (list)
